@@ -199,7 +199,11 @@ func (s *State) ghostInt(name string) *Term {
 	if t, ok := s.ghost[name]; ok {
 		return t
 	}
-	vn := fmt.Sprintf("%s@%d", smtName(name), s.epoch)
+	ep := s.epoch
+	if len(name) >= 6 && name[:6] == "#call$" {
+		ep = 0 // the activation's own call counters are not heap state
+	}
+	vn := fmt.Sprintf("%s@%d", smtName(name), ep)
 	if b := s.bump["#spawnver"]; b > 0 && len(name) >= 6 && name[:6] == "#spawn" {
 		vn = fmt.Sprintf("%s_%d", vn, b)
 	}
